@@ -183,7 +183,7 @@ type X1 struct {
 	BoundHit                                bool // some alternative was skipped because of the deviation bound
 	Outcomes                                map[string]int
 	Viol                                    []FoundViolation
-	Deadline                                time.Time
+	Deadline                                Budget
 	TimedOut                                bool
 	MaxExecs                                int
 	Samples                                 []string
@@ -352,7 +352,7 @@ func (x *X1) finish(ex *Exec) {
 	if !ex.Cut {
 		var vs []Violation
 		if w.S.Panic != nil {
-			vs = append(vs, Violation{Property: "C13", Rule: "panic", Msg: fmt.Sprintf("panic in managed thread: %v\n%s", w.S.Panic, w.S.PanicStack), Norm: "panic"})
+			vs = append(vs, panicViolation(w.S.Panic, w.S.PanicStack))
 		}
 		if ex.Horizon {
 			vs = append(vs, Violation{Property: "*", Rule: "livelock", Msg: "step horizon reached", Norm: "livelock"})
@@ -399,7 +399,7 @@ func (x *X1) explore(prefix []int, prefixPoints []point) {
 	if x.TimedOut || (x.stopAtFirst && len(x.Viol) > 0) {
 		return
 	}
-	if !x.Deadline.IsZero() && time.Now().After(x.Deadline) {
+	if x.Deadline.Exceeded() {
 		x.TimedOut = true
 		return
 	}
@@ -630,4 +630,35 @@ func (w *World) StateKey(symmetry bool) string {
 		sb.WriteString(" th:" + t.Tag + "@" + t.Kind().String())
 	}
 	return sb.String()
+}
+
+// panicViolation: a panic of a managed thread whose innermost frame is production code is a verdict for whichever
+// property is being checked - the runner crashes in an execution the property quantifies over. A panic that
+// originates in the harness is an infrastructure failure.
+func panicViolation(p interface{}, stack []byte) Violation {
+	if origin := panicOrigin(string(stack)); origin != "production" {
+		panic(InfraError{fmt.Sprintf("panic in harness code on a managed thread (%s): %v\n%s", origin, p, stack)})
+	}
+	return Violation{Property: "*", Rule: "panic", Msg: fmt.Sprintf("the runner panics in this execution: %v\n%s", p, stack), Norm: "panic"}
+}
+
+func panicOrigin(stack string) string {
+	i := strings.Index(stack, "\npanic(")
+	if i < 0 {
+		return "unknown"
+	}
+	lines := strings.Split(stack[i+1:], "\n")
+	for _, l := range lines[1:] {
+		if l == "" || strings.HasPrefix(l, "\t") || strings.HasPrefix(l, "runtime.") || strings.HasPrefix(l, "panic(") || strings.HasPrefix(l, "created by") {
+			continue
+		}
+		if strings.HasPrefix(l, "github.com/Flowpack/prunner/zverif/") {
+			continue
+		}
+		if strings.HasPrefix(l, "github.com/Flowpack/prunner") {
+			return "production"
+		}
+		return "harness: " + l
+	}
+	return "unknown"
 }
